@@ -44,11 +44,12 @@ ASSUME SampleEvalAgree /\ VariantsRejected /\ JacobianIncluded
 \*   "unsorted" parameter list NOT in alphabetical order (HDF5 returns keys alphabetically on reload)
 \*   "revdict"  bounds mapping written in the reverse order of the parameter list
 \* scale: width of the declared support of the second parameter - order one, tiny (2e-5: a clipping
-\* margin must be a fraction of the width, not an absolute distance) or huge (4e6)
+\* margin must be a fraction of the width, not an absolute distance), huge (4e6), or "free": the
+\* second parameter has no finite bounds, so bounded and unbounded parameters are mixed
 Cells == { [backend |-> b, bounded |-> bt, affine |-> a, dtype |-> d, state |-> s, refit |-> r, names |-> nm, scale |-> sc] :
              b \in {"zuko", "flowjax"}, bt \in {"logit", "probit", "off"}, a \in BOOLEAN,
              d \in {"float32", "float64"}, s \in {"untrained", "trained", "reloaded"}, r \in BOOLEAN,
-             nm \in {"sorted", "unsorted", "revdict"}, sc \in {"unit", "tiny", "huge"} }
+             nm \in {"sorted", "unsorted", "revdict"}, sc \in {"unit", "tiny", "huge", "free"} }
 ASSUME PrintT(<<"NCASES", Cardinality(Cells)>>)
 ASSUME JsonSerialize(IOEnv.OUT_FILE, [cells |-> SetToSeq(Cells), shift_log_prob |-> ShiftLogProb(5),
                                        shift_sample_log_q |-> ShiftSampleLogQ(5)])
